@@ -444,7 +444,14 @@ func runC07(c *Ctx) {
 		n = 2 + c.T.Choose(5)
 	}
 	idf := c.T.Weighted(3, 1, 2, 1, 2)
-	tw := PlanTunnels(c, TunOpts{N: n, Transports: []string{"ws", "legacy"}, IDFormat: idf})
+	trs := []string{"ws", "legacy"}
+	if c.T.Bool(1, 50) {
+		// a terminal-server farm's worth of clients, all on the legacy transport, at once
+		n = 34 + c.T.Choose(14)
+		trs = []string{"legacy"}
+		c.S.Count("probe.dozens_of_legacy_tunnels_at_once")
+	}
+	tw := PlanTunnels(c, TunOpts{N: n, Transports: trs, IDFormat: idf})
 	// two tunnels may target the same machine on different ports, one of which is down
 	samePair := [2]int{-1, -1}
 	// (at most one of the special situations below per run)
@@ -491,6 +498,17 @@ func runC07(c *Ctx) {
 	}
 	var ds []string
 	ds = append(ds, fmt.Sprintf("id-format=%d", idf))
+	if special == 0 && c.T.Bool(1, 5) {
+		// a legacy client whose outgoing connection is lost right after it was accepted retries
+		// with the same connection id before it opens its incoming connection
+		for _, p := range tw.Plans {
+			if p.Transport == "legacy" && !p.INFirst {
+				p.LostOut = true
+				ds = append(ds, p.Name+":first-OUT-connection-lost-then-retried")
+				break
+			}
+		}
+	}
 	if c.T.Bool(1, 3) {
 		// one user, signed in once (one access token), connects to two different hosts from
 		// the same machine: two tunnels, each bound to the host of its own token
